@@ -434,7 +434,8 @@ impl GrWorld {
                 if !gr.is_empty() {
                     caps.push(packet::Capability::GracefulRestart {
                         flags: if nbit { 0x4 } else { 0 },
-                        restart_time: 3600,
+                        // the peer's Restart Time (default an hour: expiry is injected; 0 = the timer fires at once)
+                        restart_time: tok.get(4).and_then(|x| x.parse().ok()).unwrap_or(3600),
                         families: gr.iter().map(|f| (*f, 0)).collect(),
                     });
                 }
@@ -516,6 +517,10 @@ impl GrWorld {
                     note.push_str("End-of-RIB not observed;");
                 }
                 settle().await;
+            }
+            "settle" => {
+                // give timers that are due (a Restart Time of 0) the time to fire
+                tokio::time::sleep(Duration::from_millis(60)).await;
             }
             "drop" => {
                 let reason = tok[1];
